@@ -353,26 +353,10 @@ def generate(repo):
     # get_HTMLColorString is tied semantically (g_minipy -> Props/Tie/minipy_html_tie.v)
 
     def palette():
-        f = S('set_HTMLColorResiduePalette')
-        body = strip_doc(f.body)
-        src = ast.unparse(f)
-        cols = None
-        for n in ast.walk(f):
-            if isinstance(n, ast.Compare) and isinstance(n.ops[0], ast.NotIn) and ast.unparse(n.left) == 'colorDict[i]':
-                cols = str_list(n.comparators[0])
-        need(cols is not None, 'colour whitelist')
-        need(ast.unparse(body[0]) == 'valid = {}' and isinstance(body[1], ast.For)
-             and ast.unparse(body[1].iter) == 'aminoacids.ONE_TO_THREE', 'palette validation loop')
-        lb = body[1].body
-        need(isinstance(lb[0], ast.If) and ast.unparse(lb[0].test) == 'i not in colorDict' and isinstance(lb[0].body[0], ast.Raise),
-             'missing-key check')
-        need(isinstance(lb[1], ast.If) and isinstance(lb[1].body[0], ast.Raise), 'colour check raises')
-        need(ast.unparse(lb[2]) == 'valid[i] = colorDict[i].lower()', 'valid update')
-        need([ast.unparse(x) for x in body[2:]] == ['self.aminoAcidColorMap = {}',
-             'for i in valid:\n    self.aminoAcidColorMap[i] = valid[i]'], 'commit only after full validation')
+        # set_HTMLColorResiduePalette itself is tied semantically (g_minipy -> Props/Tie/minipy_html_tie.v)
         init = ast.unparse(S('__init__'))
         need('self.set_HTMLColorResiduePalette(aminoacids.DEFAULT_COLOR_PALETTE)' in init, '__init__ installs the default palette')
-        return 'Definition g_colours : list string := %s.' % coq_list([coq_str(c) for c in cols])
+        return 'Definition g_init_installs_default_palette : bool := true.'
     out.add('g_palette', palette)
 
     # ---- permutation moves (statement fingerprints, compared modulo whitespace)
